@@ -18,6 +18,7 @@ pub mod c14;
 pub mod c15;
 pub mod c16;
 pub mod c17;
+pub mod c18;
 pub mod c20;
 
 pub fn run(ctx: &Ctx) -> i32 {
@@ -39,6 +40,7 @@ pub fn run(ctx: &Ctx) -> i32 {
         "C15" => c15::run(ctx),
         "C16" => c16::run(ctx),
         "C17" => c17::run(ctx),
+        "C18" => c18::run(ctx),
         "C20" => c20::run(ctx),
         other => {
             eprintln!("unknown property {}", other);
@@ -66,6 +68,7 @@ pub fn replay(prop: &str, op: &str, case: &Value, acc: &mut Acc) -> bool {
         "C15" => c15::replay(op, case, acc),
         "C16" => c16::replay(op, case, acc),
         "C17" => c17::replay(op, case, acc),
+        "C18" => c18::replay(op, case, acc),
         "C20" => c20::replay(op, case, acc),
         _ => false,
     }
